@@ -84,6 +84,13 @@ def strip_keys(t):
         return {'k': t['k'], 'w': t['w'], 'items': [[k if t['k'] == 'dict' else '', strip_keys(c)] for k, c in t['items']]}
     return t
 
+def sort_T(t):
+    """order of object keys is not part of the JSON document in the database"""
+    if isinstance(t, dict):
+        items = [[k, sort_T(c)] for k, c in t['items']]
+        return {'k': t['k'], 'w': t['w'], 'items': sorted(items, key=lambda p: p[0]) if t['k'] == 'dict' else items}
+    return t
+
 def find_paths(root, target, limit=8):
     out = []
     def rec(x, path):
@@ -241,6 +248,7 @@ def do_read(t, r):
 def model_mut(c, target_before):
     """the driver encoding of the call (computed before the call; `sort` needs the outcome permutation)"""
     n = c['n']; m = {'n': n}
+    if c.get('boom') is not None or c.get('bad') is not None: return None     # an argument that raises midway: outside the model
     raw = lambda v: to_T(dec(v), None, False)
     if c['t'] == 'lmut':
         if n in ('setslice_step', 'delslice_step'): return None
@@ -286,8 +294,10 @@ class Result(object):
         self.init_T = None
         self.executed = 0
 
-def execute(env, attr, init, prog, created=False):
-    """run `prog` (list of op dicts) on a fresh entity whose attribute `attr` starts as `init` (spec)."""
+def execute(env, attr, init, prog, created=False, source=None):
+    """run `prog` (list of op dicts) on a fresh entity whose attribute `attr` starts as `init` (spec).
+    With `source` (a callable (mirror_root, mirror_vars) -> list of ops, or None when done) the program is generated while
+    it runs (the generator sees the current state) and appended to `prog`."""
     E = env.E; res = Result(); akind = env.akind[attr]
     other = {} if attr == 'data' else {'data': {}}
     ds = db_session()
@@ -326,7 +336,14 @@ def execute(env, attr, init, prog, created=False):
         st['mirror'] = copy.deepcopy(plain(rootval()))
         res.init_T = to_T(st['mirror'], akind, False)
     try:
-        for idx, op in enumerate(prog):
+        idx = -1
+        while True:
+            idx += 1
+            if idx >= len(prog):
+                more = source(st['mirror'], st['mvars']) if source is not None else None
+                if not more: break
+                prog.extend(more)
+            op = prog[idx]
             o = op['op']; res.executed = idx + 1
             if o == 'take':
                 try:
@@ -412,7 +429,7 @@ def execute(env, attr, init, prog, created=False):
                 if canon(st['mirror']) != insess: res.mirror_diffs.append({'at': idx, 'what': 'value at end of session', 'real': insess, 'mirror': canon(st['mirror'])})
                 st['mirror'] = copy.deepcopy(plain(rootval()))
                 if res.model_valid:
-                    res.model_ops.append({'t': 'reload'}); res.snaps.append((len(res.model_ops) - 1, snap(None, True), idx))
+                    res.model_ops.append({'t': 'reload', 'v': to_T(st['mirror'], akind, False)}); res.snaps.append((len(res.model_ops) - 1, snap(None, True), idx))
                 continue
             raise ValueError(o)
         # end of program = end of session
@@ -471,7 +488,7 @@ class Gen(object):
         rng = self.rng; n = len(y)
         if array:
             good = (lambda: rng.choice([0, 1, 5, -3, True, 2**40])) if array == 'iarr' else (lambda: rng.choice(['', 'a', 'b', 'zz']))
-            bad = lambda: rng.choice(['x', None, [1], {'a': 1}]) if array == 'iarr' else rng.choice([1, None, ['a'], True])
+            bad = lambda: rng.choice(['x', None, [1], {'$d': [['a', 1]]}]) if array == 'iarr' else rng.choice([1, None, ['a'], True])
             val = lambda: (bad() if rng.random() < 0.15 else good())
             vals = lambda: [val() for _ in range(rng.choice([0, 1, 2, 3]))]
         else:
@@ -540,51 +557,39 @@ class Gen(object):
         return r
 
 def random_program(env, rng, attr, nops, danger):
-    """generate AND run a random program (generation needs the current state); returns (init, prog, result)"""
+    """generate AND run a random program (the generator looks at the current mirror); returns (init, prog, result)"""
     g = Gen(rng, attr, danger)
     akind = env.akind[attr]
     if attr == 'data': init = enc(rand_doc(rng))
     elif attr == 'arr': init = [rng.choice([0, 1, 2, 5, -3]) for _ in range(rng.choice([0, 1, 3, 5]))]
     else: init = [rng.choice(['a', 'b', '', 'zz']) for _ in range(rng.choice([0, 1, 3, 5]))]
-    # generation by dry-running on a plain copy
-    mirror = {'root': copy.deepcopy(plain(json.loads(json.dumps(plain(dec(init)), sort_keys=True))))}
-    prog = []; mvars = {}
-    def take(path):
-        v = 'x%d' % g.nvar; g.nvar += 1
-        y = mirror['root']
-        for s in path: y = y[s]
-        mvars[v] = y
-        prog.append({'op': 'take', 'var': v, 'path': path})
-        return v
-    for _ in range(nops):
-        r = rng.random()
-        conts = containers(mirror['root'])
-        if r < 0.10 or not conts:
-            o = rng.choice(['flush', 'flush', 'commit', 'reload', 'assign', 'readattr'])
-            if o == 'assign':
-                v = enc(rand_doc(rng)) if attr == 'data' else init
-                prog.append({'op': 'assign', 'v': v}); mirror['root'] = dec(v)
+    left = [nops]
+    def source(root, mvars):
+        while left[0] > 0:
+            left[0] -= 1
+            r = rng.random()
+            conts = containers(root)
+            if r < 0.10 or not conts:
+                o = rng.choice(['flush', 'flush', 'commit', 'reload', 'assign', 'readattr'])
+                if o == 'assign': return [{'op': 'assign', 'v': enc(rand_doc(rng)) if attr == 'data' else init}]
+                return [{'op': o}]
+            ops = []
+            live = sorted(v for v in mvars if isinstance(mvars[v], (list, dict)))
+            if live and rng.random() < 0.4:
+                var = rng.choice(live); y = mvars[var]
             else:
-                prog.append({'op': o})
-                if o == 'reload':
-                    mvars.clear()
-                    mirror['root'] = json.loads(json.dumps(plain(mirror['root']), sort_keys=True))
-            continue
-        if mvars and rng.random() < 0.4: var = rng.choice(sorted(mvars))
-        else:
-            deep = [c for c in conts if len(c[0]) >= 2]
-            path, _ = rng.choice(deep) if deep and rng.random() < 0.5 else rng.choice(conts)
-            var = take(path)
-        y = mvars[var]
-        if not isinstance(y, (list, dict)): continue
-        if r < 0.30:
-            op = g.read(y); op['var'] = var; prog.append(op); continue
-        op = g.list_call(y, akind) if isinstance(y, list) else g.dict_call(y)
-        op['var'] = var
-        prog.append(op)
-        try: do_call(y, op)
-        except Exception: pass
-    return init, prog
+                deep = [c for c in conts if len(c[0]) >= 2]
+                path, y = rng.choice(deep) if deep and rng.random() < 0.5 else rng.choice(conts)
+                var = 'x%d' % g.nvar; g.nvar += 1
+                ops.append({'op': 'take', 'var': var, 'path': path})
+            if r < 0.30: op = g.read(y)
+            else: op = g.list_call(y, akind) if isinstance(y, list) else g.dict_call(y)
+            op['var'] = var
+            return ops + [op]
+        return None
+    prog = []
+    res = execute(env, attr, init, prog, source=source)
+    return init, prog, res
 
 # ---------------------------------------------------------------------------------------------------------------------
 # classification / shrinking of a loss
@@ -665,7 +670,7 @@ def compare_model(ctx, batch):
             exp = {'err': m['err'], 'dirty': m['dirty'], 'doc': strip_keys(m['doc'])}
             if m['err']: ctx.count('model-err:' + m['err'])
             if 'db' in s:
-                got['db'] = s['db']; exp['db'] = strip_keys(m['db'])
+                got['db'] = sort_T(s['db']); exp['db'] = sort_T(strip_keys(m['db']))
             if got != exp:
                 which = [k for k in got if got[k] != exp[k]]
                 ctx.divergence('model and real Pony disagree on %s after operation %d' % ('/'.join(which), idx),
@@ -871,8 +876,7 @@ def run(ctx):
     for i in range(nprog):
         attr = rng.choice(['data'] * 8 + ['arr', 'sarr'])
         danger = rng.choice([0.0, 0.0, 0.15, 0.5])
-        init, prog = random_program(env, rng, attr, rng.choice([4, 8, 14, 24]), danger)
-        res = execute(env, attr, init, prog)
+        init, prog, res = random_program(env, rng, attr, rng.choice([4, 8, 14, 24]), danger)
         ctx.case([attr, init, [(o.get('n') or o.get('r') or o['op']) for o in prog]], kind='random:' + attr)
         for o in prog:
             if o['op'] == 'call': ctx.count('op:%s.%s%s' % (o['t'], o['n'], (':' + str(o['k'])) if 'k' in o else ''))
